@@ -19,3 +19,4 @@ PROPERTY NoPrefixMatch
 PROPERTY UntouchedFireOnce
 PROPERTY NextDatagramProcessed
 PROPERTY HostileChangesNothing
+PROPERTY ArityTransparent
